@@ -49,6 +49,7 @@ type replayFile struct {
 	Decisions []gosym.Decision   `json:"decisions"`
 	Trace     []string           `json:"engine_trace,omitempty"`
 	Native    string             `json:"native_replay,omitempty"`
+	Retry     bool               `json:"retry"`
 }
 
 // decide turns harness summaries into KNOWN-FINDING / VIOLATION lines and an exit code.
@@ -59,6 +60,12 @@ func decide(prop, hd string, files []string, pkgName string, sums []*gosym.Harne
 	if ev.Tier == "thorough" {
 		tier = 1
 	}
+	type cand struct {
+		v    *gosym.Violation
+		rf   replayFile
+		path string
+	}
+	var cands []*cand
 	for _, s := range sums {
 		if len(s.Problems) > 0 || s.Truncated || len(s.Unknown) > 0 {
 			why := ""
@@ -88,46 +95,64 @@ func decide(prop, hd string, files []string, pkgName string, sums []*gosym.Harne
 			v := s.Violations[label]
 			rf := replayFile{Property: prop, PkgDir: pkgDirOf(hd), Harness: v.Harness, Label: v.Label, Tier: tier, Msg: v.Msg, Pos: v.Pos,
 				Inputs: v.Inputs, Apps: v.Apps, Choices: v.Choices, Decisions: v.Decisions, Trace: v.Trace}
+			for _, d := range v.Decisions {
+				if d.Kind == "maporder" || d.Kind == "sched" || d.Kind == "select" || d.Kind == "pool" {
+					rf.Retry = true
+				}
+			}
 			b, _ := json.Marshal(rf)
 			h := sha1.Sum(b)
 			dir := filepath.Join(verifDir, "replays", prop)
 			os.MkdirAll(dir, 0o755)
 			path := filepath.Join(dir, fmt.Sprintf("%s-%s-%x.json", strings.TrimPrefix(v.Harness, "vh_"+prop+"_"), sanitize(label), h[:4]))
-			reproduced := true
-			if doReplay {
-				ev.Replays++
-				ok, out := nativeReplay(rf, files, pkgName)
-				rf.Native = out
-				reproduced = ok
-				if ok {
-					ev.ReplaysOK++
-				}
-			}
-			b, _ = json.MarshalIndent(rf, "", " ")
 			os.WriteFile(path, b, 0o644)
-			if !reproduced {
-				fmt.Printf("ENGINE-DIVERGENCE property=%s harness=%s label=%s: counterexample did not reproduce natively (%s) replay=%s\n", prop, v.Harness, label, firstLine(rf.Native), path)
-				ev.Problems = append(ev.Problems, fmt.Sprintf("%s/%s: counterexample did not reproduce natively", v.Harness, label))
-				if exit < 2 {
-					exit = 2
-				}
-				continue
+			cands = append(cands, &cand{v: v, rf: rf, path: path})
+		}
+	}
+	results := make([]string, len(cands))
+	if doReplay && len(cands) > 0 {
+		var paths []string
+		for _, c := range cands {
+			paths = append(paths, c.path)
+		}
+		results = nativeReplayBatch(pkgDirOf(hd), paths, files, pkgName)
+		ev.Replays += len(cands)
+	}
+	for i, c := range cands {
+		v := c.v
+		label := v.Label
+		reproduced := true
+		if doReplay {
+			reproduced = strings.HasPrefix(results[i], "reproduced")
+			c.rf.Native = results[i]
+			if reproduced {
+				ev.ReplaysOK++
 			}
-			if kf := matchKnown(known, prop, v.Harness, label); kf != nil {
-				line := fmt.Sprintf("KNOWN-FINDING: property=%s %s [%s/%s] e.g. %s", prop, kf.What, v.Harness, label, inputsStr(v))
-				fmt.Println(line)
-				ev.KnownLines = append(ev.KnownLines, line)
-				ev.Known++
-				continue
+			b, _ := json.MarshalIndent(c.rf, "", " ")
+			os.WriteFile(c.path, b, 0o644)
+		}
+		if !reproduced {
+			fmt.Printf("ENGINE-DIVERGENCE property=%s harness=%s label=%s: counterexample did not reproduce natively (%s) replay=%s\n", prop, v.Harness, label, firstLine(c.rf.Native), c.path)
+			ev.Problems = append(ev.Problems, fmt.Sprintf("%s/%s: counterexample did not reproduce natively", v.Harness, label))
+			if exit < 2 {
+				exit = 2
 			}
-			line := fmt.Sprintf("VIOLATION property=%s replay=%s", prop, path)
+			continue
+		}
+		if kf := matchKnown(known, prop, v.Harness, label); kf != nil {
+			line := fmt.Sprintf("KNOWN-FINDING: property=%s %s [%s/%s] e.g. %s", prop, kf.What, v.Harness, label, inputsStr(v))
 			fmt.Println(line)
-			fmt.Printf("  harness=%s label=%s %s %s inputs: %s\n", v.Harness, label, v.Pos, v.Msg, inputsStr(v))
-			ev.ViolLines = append(ev.ViolLines, fmt.Sprintf("%s/%s %s", v.Harness, label, inputsStr(v)))
-			ev.Violations++
-			if exit < 1 {
-				exit = 1
-			}
+			ev.KnownLines = append(ev.KnownLines, line)
+			ev.Known++
+			continue
+		}
+		line := fmt.Sprintf("VIOLATION property=%s replay=%s", prop, c.path)
+		fmt.Println(line)
+		fmt.Printf("  harness=%s label=%s %s %s inputs: %s\n", v.Harness, label, v.Pos, v.Msg, inputsStr(v))
+		ev.ViolLines = append(ev.ViolLines, fmt.Sprintf("%s/%s %s", v.Harness, label, inputsStr(v)))
+		ev.Violations++
+		if exit < 1 {
+			exit = 1
 		}
 	}
 	return exit
@@ -149,15 +174,19 @@ func matchKnown(k knownFile, prop, harness, label string) *knownFinding {
 
 var vhRe = regexp.MustCompile(`(?m)^func (vh_\w+)\(\)`)
 
-// nativeReplay compiles the same harness files natively (go test -overlay, /repo untouched) with the replay
-// implementation of the vf vocabulary and runs the counterexample.
-func nativeReplay(rf replayFile, files []string, pkgName string) (bool, string) {
+// nativeReplayBatch compiles the same harness files natively (go test -overlay, /repo untouched) with the replay
+// implementation of the vf vocabulary and runs the counterexamples; result i starts with "reproduced" on success.
+func nativeReplayBatch(pkgRel string, paths []string, files []string, pkgName string) []string {
+	results := make([]string, len(paths))
 	tmp, err := os.MkdirTemp("", "vfreplay")
 	if err != nil {
-		return false, err.Error()
+		for i := range results {
+			results[i] = err.Error()
+		}
+		return results
 	}
 	defer os.RemoveAll(tmp)
-	pkgDir := filepath.Join(repoDir, rf.PkgDir)
+	pkgDir := filepath.Join(repoDir, pkgRel)
 	ov := map[string]string{}
 	var reg []string
 	for _, f := range files {
@@ -170,7 +199,8 @@ func nativeReplay(rf replayFile, files []string, pkgName string) (bool, string) 
 	for _, c := range []string{"vf_native.go", "vf_native2.go", "vf_lib.go", "vf_replay_test.go.tmpl"} {
 		b, err := os.ReadFile(filepath.Join(verifDir, "harness", "common", c))
 		if err != nil {
-			return false, err.Error()
+			results[0] = err.Error()
+			return results
 		}
 		src := strings.Replace(string(b), "package PKG", "package "+pkgName, 1)
 		src = strings.Replace(src, "//REGISTRY", strings.Join(reg, "\n"), 1)
@@ -185,51 +215,110 @@ func nativeReplay(rf replayFile, files []string, pkgName string) (bool, string) 
 	ovb, _ := json.Marshal(map[string]interface{}{"Replace": ov})
 	ovPath := filepath.Join(tmp, "overlay.json")
 	os.WriteFile(ovPath, ovb, 0o644)
-	rb, _ := json.Marshal(rf)
-	rp := filepath.Join(tmp, "replay.json")
-	os.WriteFile(rp, rb, 0o644)
-	attempts := "1"
-	for _, d := range rf.Decisions {
-		if d.Kind == "maporder" {
-			attempts = "300"
+	bin := filepath.Join(tmp, "replay.test")
+	build := exec.Command("go", "test", "-c", "-vet=off", "-o", bin, "-overlay", ovPath, ".")
+	build.Dir = pkgDir
+	build.Env = append(os.Environ(), "GOFLAGS=-mod=mod", "GOPROXY=off", "GOSUMDB=off", "GOTOOLCHAIN=local")
+	if out, err := build.CombinedOutput(); err != nil {
+		for i := range results {
+			results[i] = "replay build failed: " + string(out)
 		}
+		return results
 	}
-	cmd := exec.Command("go", "test", "-v", "-vet=off", "-count=1", "-run", "^TestVFReplay$", "-timeout", "60s", "-overlay", ovPath, ".")
-	cmd.Dir = pkgDir
-	cmd.Env = append(os.Environ(), "GOFLAGS=-mod=mod", "GOPROXY=off", "GOSUMDB=off", "GOTOOLCHAIN=local", "VF_REPLAY="+rp, "VF_ATTEMPTS="+attempts)
-	done := make(chan struct{})
-	var out []byte
-	go func() { out, _ = cmd.CombinedOutput(); close(done) }()
-	select {
-	case <-done:
-	case <-time.After(180 * time.Second):
-		if cmd.Process != nil {
-			cmd.Process.Kill()
+	run := func(idx []int) string {
+		var ps []string
+		for _, i := range idx {
+			ps = append(ps, paths[i])
 		}
-		<-done
-	}
-	o := string(out)
-	res := ""
-	for _, l := range strings.Split(o, "\n") {
-		if strings.HasPrefix(l, "VF-RESULT") {
-			res = l
+		cmd := exec.Command(bin, "-test.run", "^TestVFReplay$", "-test.v", "-test.timeout", "120s")
+		cmd.Dir = pkgDir
+		cmd.Env = append(os.Environ(), "VF_REPLAY="+strings.Join(ps, ":"), "VF_ATTEMPTS=400")
+		done := make(chan struct{})
+		var out []byte
+		go func() { out, _ = cmd.CombinedOutput(); close(done) }()
+		select {
+		case <-done:
+		case <-time.After(200 * time.Second):
+			if cmd.Process != nil {
+				cmd.Process.Kill()
+			}
+			<-done
 		}
+		return string(out)
 	}
-	switch {
-	case strings.HasPrefix(res, "VF-RESULT reproduced"):
-		return true, res
-	case rf.Label == "crash" && (strings.Contains(o, "\npanic:") || strings.Contains(o, "fatal error:")):
-		return true, "process crashed natively: " + firstPanicLine(o)
-	case rf.Label == "deadlock" && (strings.Contains(o, "test timed out") || strings.Contains(o, "all goroutines are asleep")):
-		return true, "native run deadlocked / timed out"
+	pending := make([]int, len(paths))
+	for i := range pending {
+		pending[i] = i
 	}
-	if res == "" {
-		if len(o) > 1500 {
-			o = o[len(o)-1500:]
+	for len(pending) > 0 {
+		o := run(pending)
+		got := map[int]bool{}
+		begun := -1
+		for _, l := range strings.Split(o, "\n") {
+			var k int
+			if n, _ := fmt.Sscanf(l, "VF-BEGIN %d", &k); n == 1 {
+				begun = k
+			}
+			if strings.HasPrefix(l, "VF-RESULT ") {
+				rest := strings.TrimPrefix(l, "VF-RESULT ")
+				sp := strings.IndexByte(rest, ' ')
+				if sp > 0 {
+					fmt.Sscanf(rest[:sp], "%d", &k)
+					if k >= 0 && k < len(pending) {
+						results[pending[k]] = rest[sp+1:]
+						got[k] = true
+					}
+				}
+			}
 		}
-		res = "no VF-RESULT line; output tail: " + o
+		if len(got) == len(pending) {
+			break
+		}
+		// the process died (panic in another goroutine, fatal error, timeout) while replaying `begun`
+		if begun < 0 || got[begun] {
+			for k, i := range pending {
+				if !got[k] {
+					results[i] = "no result; output tail: " + tail(o, 600)
+				}
+			}
+			break
+		}
+		i := pending[begun]
+		lbl := labelOf(paths[i])
+		switch {
+		case lbl == "crash" && (strings.Contains(o, "\npanic:") || strings.Contains(o, "fatal error:")):
+			results[i] = "reproduced: process crashed natively: " + firstPanicLine(o)
+		case lbl == "deadlock" && (strings.Contains(o, "test timed out") || strings.Contains(o, "all goroutines are asleep")):
+			results[i] = "reproduced: native run deadlocked / timed out"
+		default:
+			results[i] = "process died: " + firstPanicLine(o) + " " + tail(o, 300)
+		}
+		var rest []int
+		for k, j := range pending {
+			if !got[k] && k != begun {
+				rest = append(rest, j)
+			}
+		}
+		pending = rest
 	}
-	return false, res
+	return results
+}
+
+func tail(s string, n int) string {
+	if len(s) > n {
+		return s[len(s)-n:]
+	}
+	return s
+}
+
+func labelOf(path string) string {
+	b, err := os.ReadFile(path)
+	if err != nil {
+		return ""
+	}
+	var rf replayFile
+	json.Unmarshal(b, &rf)
+	return rf.Label
 }
 
 func firstPanicLine(o string) string {
@@ -268,7 +357,8 @@ func cmdReplay(args []string) int {
 		fmt.Fprintln(os.Stderr, err)
 		return 2
 	}
-	ok, out := nativeReplay(rf, files, pkgName)
+	out := nativeReplayBatch(rf.PkgDir, []string{args[len(args)-1]}, files, pkgName)[0]
+	ok := strings.HasPrefix(out, "reproduced")
 	fmt.Println(out)
 	if ok {
 		fmt.Printf("VIOLATION property=%s replay=%s\n", rf.Property, args[len(args)-1])
